@@ -297,6 +297,8 @@ struct ScriptIo {
     // observations
     pending_reads: u64,
     short_writes: u64,
+    /// zero-length results returned for a non-empty write
+    zero_writes: u64,
     /// Pending results returned by this object (each one "registers" the caller's waker)
     io_pendings: u64,
 }
@@ -317,6 +319,7 @@ impl ScriptIo {
             eof_at: None,
             pending_reads: 0,
             short_writes: 0,
+            zero_writes: 0,
             io_pendings: 0,
         }
     }
@@ -368,7 +371,12 @@ impl AsyncWrite for ScriptIo {
                 Poll::Pending
             }
             Step::Err => Poll::Ready(Err(io::Error::new(io::ErrorKind::BrokenPipe, "scripted write error"))),
-            Step::Zero => Poll::Ready(Ok(0)),
+            Step::Zero => {
+                if !buf.is_empty() {
+                    this.zero_writes += 1;
+                }
+                Poll::Ready(Ok(0))
+            }
             step => {
                 let n = match step {
                     Step::Some(n) => n.max(1).min(buf.len()),
@@ -504,7 +512,12 @@ fn transport_case(ctx: &Ctx, idx: u64, r: &mut Rng, out: &mut Outcome) {
                 // bytes handed to the transport but not yet on the wire
                 let unsent = expected_wire.len() - io.borrow().wire.len();
                 let (p0, w0) = (io.borrow().io_pendings, wake_n());
+                let z0 = io.borrow().zero_writes;
                 let r = t.as_mut().send_poll_ready(&mut cx);
+                if io.borrow().zero_writes > z0 && !matches!(&r, Poll::Ready(Err(_))) {
+                    problems.push(("tt-write-zero-swallowed:ready".into(), format!("the I/O object returned Ok(0) for a non-empty write during send_poll_ready, which returned {:?} instead of an error", r.is_ready())));
+                    break 'send;
+                }
                 if r.is_pending() && io.borrow().io_pendings == p0 && wake_n() == w0 {
                     problems.push(("tt-pending-without-wakeup:ready".into(), "send_poll_ready returned Pending although the I/O object never returned Pending during the call and nobody was woken".into()));
                     break 'send;
@@ -538,7 +551,12 @@ fn transport_case(ctx: &Ctx, idx: u64, r: &mut Rng, out: &mut Outcome) {
                 let mut polls = 0;
                 loop {
                     let (p0, w0) = (io.borrow().io_pendings, wake_n());
+                    let z0 = io.borrow().zero_writes;
                     let r = t.as_mut().send_poll_flush(&mut cx);
+                    if io.borrow().zero_writes > z0 && !matches!(&r, Poll::Ready(Err(_))) {
+                        problems.push(("tt-write-zero-swallowed:flush".into(), format!("the I/O object returned Ok(0) for a non-empty write during send_poll_flush, which returned {:?} instead of an error", r.is_ready())));
+                        break 'send;
+                    }
                     if r.is_pending() && io.borrow().io_pendings == p0 && wake_n() == w0 {
                         problems.push(("tt-pending-without-wakeup:flush".into(), "send_poll_flush returned Pending although the I/O object never returned Pending during the call and nobody was woken".into()));
                         break 'send;
